@@ -40,7 +40,7 @@ def app_cfg(c, seed):
                     "MaxEvAge": 1, "FracDS": "0.5", "FracDT": "0.25", "FracDen": 4, "Fee": 1, "GovFee": c["GovFee"], "FeeMult": 1,
                     "Bal": list(c["GenBal"]), "GVals": [], "DaoTokens": c["DaoTokens"], "DaoOwner": c["DaoOwner0"],
                     "AclOwner": list(c["AclOwner0"]), "KeySeed": seed},
-            "fracDen": 4}
+            "fracDen": 4, "gov": True}
 
 
 SIZES = {"quick": dict(num=60, depth=8, onein=40, simt=60, mct=200, maxbeh=1500, mctx=2),
